@@ -141,6 +141,33 @@ Definition encrypt_msg (msg key : bytes) : outcome bytes :=
 Definition decrypt_msg (msg key check_data : bytes) : outcome bytes :=
   do kv <- generate_aes_ige check_data key true;
   returned (do_decrypt D msg (zbuf (length msg)) (fst kv) (snd kv)).
+
+(* ---- TryDecryptMessageWithTempKeys: the entry used by the handshake on data from the network.
+   Every malformed input is an ERROR RETURN, never a panic:
+     err := doAES256IGEdecrypt(...); if err != nil { return nil, err }        (length 0 / not a multiple of 16)
+     if len(decoded) < 20 { return nil, ErrDataTooSmall }                     (no room for the hash)
+     decoded[:20], decoded[20:]                                               (slice expressions: bounds tests kept here)
+     for i := len(m); i > len(m)-16 && i >= 0; i-- { if hash == sha1(m[:i]) { return m[:i], nil } }
+     return nil, errors.New("couldn't trim message ...")
+   DecryptMessageWithTempKeys = check(err) around it ([decrypt_temp] above is the same function with every
+   refusal a panic; TempKeysProofs.decrypt_temp_is_checked_try). ---- *)
+Fixpoint try_cuts_err (fuel j : nat) (hash m : bytes) : outcome bytes :=
+  match fuel with
+  | O => Err
+  | S f =>
+      if length m <? j then Err
+      else let cand := firstn (length m - j) m in
+           if beq hash (H cand) then Ok cand else try_cuts_err f (S j) hash m
+  end.
+
+Definition trydec_temp (msg : bytes) (n_second n_server : N) : outcome bytes :=
+  do kv <- generate_temp_keys n_second n_server;
+  do dec <- returned (do_decrypt D msg (zbuf (length msg)) (fst kv) (snd kv));
+  if length dec <? 20 then Err
+  else
+    do hash <- gslice dec 0 20;
+    do m <- gslice dec 20 (length dec);
+    try_cuts_err 16 0 hash m.
 End Wrappers.
 
 (* ---- the MTProto formulas on raw nonce bytes (core.telegram.org/mtproto/auth_key) ---- *)
